@@ -1,9 +1,163 @@
 import Drive.Json
-/-! Line-protocol handlers: S3 (stub until the model lands). -/
+import Drive.C14
+import PlaybackModel.S3
+/-! Line-protocol handlers for the S3 cassette model: C15 (confinement, crash points) and C16 (time windows).
+
+Times are minutes since 1970-01-01T00:00 (UTC).  `strftime('%Y%m%d')` is a parameter of the model; the request carries its
+graph on the days it needs as `"daytab": [[dayNumber, "YYYYMMDD"], …]` (computed by Python's `strftime` in the harness). -/
 open Lean
 namespace Drive.S3
-open Drive
+open Drive PlaybackModel.MetaFilter PlaybackModel.S3
 
-def handlers : List (String × Handler) := []
+def dayStrOf (tab : List (Nat × String)) (d : Nat) : String :=
+  match tab.find? (fun e => e.1 == d) with
+  | some e => e.2
+  | none => s!"?{d}"
+
+def toDayTab (j : Json) : Except String (List (Nat × String)) := do
+  mapM' (fun e => do
+    match ← asArr e with
+    | [d, s] => .ok ((← asNat d), (← asStr s))
+    | _ => .error "bad daytab entry") (← asArr j)
+
+def optNat (j : Json) (k : String) : Except String (Option Nat) :=
+  match optField j k with
+  | none => .ok none
+  | some v => do .ok (some (← asNat v))
+
+def toMeta (j : Json) (k : String) : Except String Meta :=
+  match optField j k with
+  | none => .ok []
+  | some v => Drive.C14.toMVal.toFields v
+
+def toCfg (j : Json) : Except String Cfg := do
+  .ok (mkCfg (← strField j "p") (← boolField j "ro") (← boolField j "tr"))
+
+/-- the `random.choice` stream: the given draws, cycled -/
+def chOf (draws : List Nat) (step : Nat) : Nat :=
+  if draws.isEmpty then 0 else draws.getD (step % draws.length) 0
+
+/-- the harness' deterministic stand-in for `random.shuffle`: rotate left by `k` -/
+def rotate {α : Type} (k : Nat) (l : List α) : List α :=
+  if l.isEmpty then l else l.drop (k % l.length) ++ l.take (k % l.length)
+
+def toDraws (j : Json) : Except String (List Nat) :=
+  match optField j "ch" with
+  | none => .ok []
+  | some v => do mapM' asNat (← asArr v)
+
+def mutJson (m : Mutation) : Json :=
+  jArr [Json.str (if m.isPut then "put" else "delete"), Json.str m.key]
+
+def resJson : Res → Json
+  | .done => Json.str "ok"
+  | .assertionError => Json.str "AssertionError"
+  | .noSuchRecording => Json.str "NoSuchRecording"
+  | .crashed => Json.str "crashed"
+  | .id s => jObj [("id", Json.str s)]
+  | .found _ => Json.str "found"
+  | .ids l => jObj [("ids", jArr (l.map Json.str))]
+  | .raised _ => Json.str "TypeError"
+
+def toOp (j : Json) : Except String PlaybackModel.S3.Op := do
+  let kind ← strField j "op"
+  let t := (optNat j "t").toOption.join.getD 0
+  let req : Except String SaveReq := do
+    .ok ⟨(← strField j "id"), "payload", (← toMeta j "md")⟩
+  match kind with
+  | "create" => .ok (.create (← strField j "cat") (← strField j "uid") t)
+  | "save" => .ok (.save (← req) t)
+  | "savecrash" => .ok (.saveCrash (← req) t (← natField j "k"))
+  | "get" => .ok (.get (← strField j "id"))
+  | "getmeta" => .ok (.getMeta (← strField j "id"))
+  | "list" => .ok (.list (← strField j "cat"))
+  | "close" => .ok .close
+  | "exit" => .ok .exit
+  | _ => .error s!"unknown op {kind}"
+
+/-- {"m":"c15.run","daytab":[..],"foreign":[key..],"cfgs":[{"p","ro","tr"}..],"ops":[{"c":idx,"op":..,…}..]}
+    → {"steps":[{"res":…,"log":[[kind,key]..],"keys":[all keys after the step],"visible":[[id,fetchable]..]}..]}
+    (`visible`: what a fresh read-only cassette with the same key prefix can discover after the step) -/
+def runH : Handler := fun j => do
+  let tab ← toDayTab (fieldD j "daytab" (Json.arr #[]))
+  let foreign ← mapM' asStr (← arrField j "foreign")
+  let cfgs ← mapM' toCfg (← arrField j "cfgs")
+  let b0 : Bucket := foreign.foldl (fun b k => putObj b k ⟨"foreign", [], 0⟩) []
+  let mut st : St := ⟨b0, []⟩
+  let mut out : List Json := []
+  for oj in (← arrField j "ops") do
+    let ci ← natField oj "c"
+    let c ← match cfgs[ci]? with
+      | some c => pure c
+      | none => throw "bad cassette index"
+    let op ← toOp oj
+    let (st', res) := step fnmatch (dayStrOf tab) c st op
+    let new := st'.log.drop st.log.length
+    let reader : Cfg := ⟨c.kp, true, false⟩
+    let visible := (listPrefix st'.bucket (metaRoot reader)).map (fun e =>
+      jArr [Json.str (idOfKey reader e.1), Json.bool (fetchable reader st'.bucket (idOfKey reader e.1))])
+    out := out ++ [jObj [("res", resJson res), ("log", jArr (new.map (fun e => mutJson e.2))),
+                         ("keys", jArr (st'.bucket.map (fun e => Json.str e.1))), ("visible", jArr visible)]]
+    st := st'
+  .ok (jObj [("steps", jArr out)])
+
+/-- {"m":"c15.visible","p":prefix,"keys":[..]} → for a fresh read-only cassette on a bucket with exactly these keys:
+    the discoverable ids and whether each one is fetchable -/
+def visibleH : Handler := fun j => do
+  let c := mkCfg (← strField j "p") true false
+  let keys ← mapM' asStr (← arrField j "keys")
+  let b : Bucket := keys.foldl (fun b k => putObj b k ⟨"", [], 0⟩) []
+  let ids := (listPrefix b (metaRoot c)).map (fun e => idOfKey c e.1)
+  .ok (jArr (ids.map (fun id => jArr [Json.str id, Json.bool (fetchable c b id)])))
+
+/-- the bucket after every recording of `recs` ([{"cat","uid","t","md"}..]) was created and saved at its own instant `t`
+    through the model's cassette operations -/
+def buildBucket (dayStr : Nat → String) (c : Cfg) (recs : List Json) : Except String Bucket := do
+  let mut st : St := ⟨[], []⟩
+  for rj in recs do
+    let t ← natField rj "t"
+    let (_, r) := step fnmatch dayStr c st (.create (← strField rj "cat") (← strField rj "uid") t)
+    match r with
+    | .id rid =>
+      let (st', _) := step fnmatch dayStr c st (.save ⟨rid, "payload", (← toMeta rj "md")⟩ t)
+      st := st'
+    | _ => throw "create failed"
+  .ok st.bucket
+
+/-- one lookup {"cat","s","e","now","f","lim","random","ch","rot","unfixed"} on a bucket → {"ids":[..]} | "TypeError" -/
+def oneWindow (dayStr : Nat → String) (c : Cfg) (b : Bucket) (j : Json) : Except String Json := do
+  let unfixed := (optField j "unfixed").map (fun v => v == Json.bool true) |>.getD false
+  let days := if unfixed then prefixDaysUnfixed else prefixDays
+  let rot := (optNat j "rot").toOption.join.getD 0
+  let draws ← toDraws j
+  let random := (optField j "random").map (fun v => v == Json.bool true) |>.getD false
+  match iterRecordingIds fnmatch dayStr days c b (← strField j "cat") (← optNat j "s") (← optNat j "e")
+      (← natField j "now") (← toMeta j "f") (← optNat j "lim") random (chOf draws) (rotate rot) with
+  | .ok ids => .ok (jObj [("ids", jArr (ids.map Json.str))])
+  | .error _ => .ok (Json.str "TypeError")
+
+/-- {"m":"c16.list","p":prefix,"daytab":[..],"recs":[{"cat","uid","t","md"}..], + the fields of one lookup}
+    → {"ids":[..]} | "TypeError" -/
+def listH : Handler := fun j => do
+  let dayStr := dayStrOf (← toDayTab (fieldD j "daytab" (Json.arr #[])))
+  let c := mkCfg (← strField j "p") false false
+  let b ← buildBucket dayStr c (← arrField j "recs")
+  oneWindow dayStr c b j
+
+/-- {"m":"c16.multi","p":prefix,"daytab":[..],"recs":[..],"windows":[{lookup}..]} → [answer per lookup] -/
+def multiH : Handler := fun j => do
+  let dayStr := dayStrOf (← toDayTab (fieldD j "daytab" (Json.arr #[])))
+  let c := mkCfg (← strField j "p") false false
+  let b ← buildBucket dayStr c (← arrField j "recs")
+  .ok (jArr (← mapM' (oneWindow dayStr c b) (← arrField j "windows")))
+
+/-- {"m":"c16.days","s","e","unfixed"} → the enumerated day numbers -/
+def daysH : Handler := fun j => do
+  let unfixed := (optField j "unfixed").map (fun v => v == Json.bool true) |>.getD false
+  let days := if unfixed then prefixDaysUnfixed else prefixDays
+  .ok (jArr ((days (← natField j "s") (← natField j "e")).map jNat))
+
+def handlers : List (String × Handler) :=
+  [("c15.run", runH), ("c15.visible", visibleH), ("c16.list", listH), ("c16.multi", multiH), ("c16.days", daysH)]
 
 end Drive.S3
